@@ -201,6 +201,13 @@ def run(ctx):
                                              "floor-quotient": "values::Number::floor_quotient", "floor-remainder": "values::Number::floor_remainder"})
     _nt0.rule_zero_guards(ctx, "C09-exact")
 
+    # ------------------------------------------------------------------ C09-ieee
+    ctx.rule("C09-ieee", "abs / floor / ceiling on a real and + - * / on every pair of kinds with a real in it, payloads symbolic, every test "
+                         "explored both ways: on ten reals (both zeros, the infinities, NaN) x the exact grid the selected path's result is "
+                         "the binary32 IEEE result on the converted operands, sign of zero included")
+    from . import numtables as _nt_ie
+    _nt_ie.rule_real_arith(ctx, "C09-ieee")
+
     # ------------------------------------------------------------------ C09-folds
     ctx.rule("C09-folds", "the n-ary + - * / are left folds of the binary operation in argument order ((- a) = 0 - a, (/ a) = 1 / a): "
                           "the tree of binary operations on 0..4 opaque numbers")
